@@ -193,6 +193,17 @@ VARIANTS = [
      '                for mem in self.family_map[name][1:]:\n'
      '                    m_info.append((mem, offset, ttype))',
      'C15.member-loop'),
+    ('F1-regression', 'cylc/flow/graph_parser.py',
+     '        QUAL_FAM_SUBMIT_FAIL_ANY: (TASK_OUTPUT_SUBMIT_FAILED, False),',
+     '        QUAL_FAM_SUBMIT_FAIL_ANY: (TASK_OUTPUT_SUBMITTED, False),',
+     'C15.trigger-map'),
+    ('F2-regression', 'cylc/flow/graph_parser.py',
+     '''                    re.escape(name),
+                    re.escape(offset),
+                    re.escape(trig)''',
+     '''                    name,
+                    re.escape(offset),
+                    re.escape(trig)''', 'C15.regex-escaped'),
     ('rhs-first-only', 'cylc/flow/graph_parser.py',
      '            for mem in rhs_members:',
      '            for mem in rhs_members[:1]:', 'C15.rhs-members'),
